@@ -26,7 +26,7 @@ ASSUMPTIONS = ["input is a connected oriented manifold triangulation (certified)
 
 def cases(seed, tier):
     rng = random.Random(seed * 16807 + 16)
-    n = 260 if tier == "quick" else 5000
+    n = 260 if tier == "quick" else 30000
     out = [{"gen": "anchor_sphere_adjacent_pair", "seed": 1}, {"gen": "anchor_sphere_adjacent_pair", "seed": 2},
            {"gen": "hinge", "seed": 973431509, "singu": "border", "features": True, "max_size": 5},
            {"gen": "hinge", "seed": 11, "singu": "one", "features": True, "max_size": 5},
